@@ -5,7 +5,7 @@ SPEC = {
         # the concurrent plan (independent pairs, one goroutine each) once more under the race detector
         {"name": "c08race", "pkg": "./zz_verif/c08", "run": "^TestC08Concurrent$", "race": True, "shards": {"quick": 1, "thorough": 4}},
     ],
-    "rule": "case = one operation history (rapid state machine, mean 40 steps quick / 200 thorough) over a sealer and its opener for one AEAD, started at a drawn "
+    "rule": "(every run also contains: 12 independent sealer/opener pairs used concurrently, each by its own goroutine, also in a -race build; a deterministic in-order sequence of 52 plaintext / aad lengths around 2^16 and 2^17 minus the tag length per AEAD) case = one operation history (rapid state machine, mean 40 steps quick / 200 thorough) over a sealer and its opener for one AEAD, started at a drawn "
             "sequence number (0, 1, 2^(8k)-d, 2^96-1-d, random with 0xff suffix) by rewriting the seq field of the marshalled contexts; several contexts per history, "
             "each with its own model counter: the pair moved to the start value, the fresh pair handed out by Sender/Receiver (seq 0), hand-made contexts of the two other AEADs "
             "with the same master key and base nonce, forks (marshal->unmarshal keeping the original) and further openers from the same Receiver with the same enc; "
